@@ -249,15 +249,34 @@ func (g *gen) snapshot(cfg chanobs.Config, b band.Band, ops []chanobs.Op) snap {
 		probes = append(probes, c)
 		probeTxt = append(probeTxt, t)
 	}
-	// GetRX1ChannelIndexForUplinkChannelIndex (mapping itself: C12): a negative index is an
-	// error, never a panic (/repo 789fde2, audit C15 #3); an index past the end is still
-	// answered (the package's own tests ask for channels that do not exist yet)
-	for _, i := range []int{-1, -n - 1, math.MinInt64, n, n + 1000, math.MaxInt64} {
+	// GetRX1ChannelIndexForUplinkChannelIndex (the mapping itself: C12) under the clause "an
+	// index outside the plan is an error, never a panic". Negative: an error since /repo
+	// 789fde2. Past the end (len, len+1, inside the %8 / %48 regions, 64-bit maximum) it is
+	// still answered with a nil error - pinned by six upstream tests, recorded as the known
+	// finding C15-10 under its own key; every other accessor is held to the clause by the
+	// probes of this snapshot.
+	for _, i := range []int{-1, -n - 1, math.MinInt64} {
 		k := chanobs.Call(func() error { _, err := b.GetRX1ChannelIndexForUplinkChannelIndex(i); return err })
-		if k == chanobs.KPanic || (i < 0 && k != chanobs.KErr) {
+		if k != chanobs.KErr {
 			g.s.Fail(cases.GoFail{Key: fmt.Sprintf("rx1-index:%s:index=%d", cfg.Name, i),
 				What:   "GetRX1ChannelIndexForUplinkChannelIndex must report a negative index as an error and never panic",
 				Replay: map[string]interface{}{"band": cfg.String(), "history": chanobs.OpsStrings(ops), "index": i, "observed": chanobs.KindName(k)}})
+		}
+	}
+	for _, p := range []struct {
+		tag string
+		i   int
+	}{{"len+0", n}, {"len+1", n + 1}, {"len+8", n + 8}, {"len+48", n + 48}, {"len+1000", n + 1000}, {"maxint64", math.MaxInt64}} {
+		var v int
+		k := chanobs.Call(func() error { var err error; v, err = b.GetRX1ChannelIndexForUplinkChannelIndex(p.i); return err })
+		if k == chanobs.KPanic {
+			g.s.Fail(cases.GoFail{Key: fmt.Sprintf("rx1-index:%s:panic:index=%s", cfg.Name, p.tag), What: "GetRX1ChannelIndexForUplinkChannelIndex panics",
+				Replay: map[string]interface{}{"band": cfg.String(), "history": chanobs.OpsStrings(ops), "index": p.i}})
+		} else if key := fmt.Sprintf("rx1ch-past-end:%s:index=%s", cfg.Name, p.tag); k != chanobs.KErr && !g.seen[key] {
+			g.seen[key] = true
+			g.s.Fail(cases.GoFail{Key: key, What: "GetRX1ChannelIndexForUplinkChannelIndex answers an uplink channel index past the end of the plan with a nil error",
+				Replay: map[string]interface{}{"band": cfg.String(), "history": chanobs.OpsStrings(ops), "uplink_channels": n, "index": p.i,
+					"observed": fmt.Sprintf("(%d, nil)", v), "required": "an error, as GetUplinkChannel / GetDownlinkChannel / Disable / Enable / GetTXPowerOffset answer the same index"}})
 		}
 	}
 	if g.nbr {
